@@ -135,21 +135,29 @@ def fold(k0: int, k1: int, k2: int, k3: int, k4: int, k5: int, n: int, style_i: 
     for _ in range(depth):
         doc = {'k': doc}
     opts = dict(default_style=pick(style_i, STYLES), width=width, indent=indent)
+    # the emitter's own normalisation, recomputed: when the indentation of the scalar reaches the
+    # effective width every writer folds at every opportunity (known finding K7)
+    eff_indent = 2
+    for i in range(2, 10):
+        if indent == i:
+            eff_indent = i
+    eff_width = width if width > 2 * eff_indent else 80
+    deep = depth * eff_indent >= eff_width
     try:
         text = emitlib.dump_to_text(doc, **opts)
         back = yaml.load(text, Loader=yaml.SafeLoader)
     except yaml.YAMLError as e:
-        return fail(P, 'REJECTED safe_load rejects what safe_dump wrote', x=x)
+        return fail(P, 'REJECTED safe_load rejects what safe_dump wrote', x=x, deep=deep)
     except Exception as e:
         not_a_finding(e)
         return fail(P, 'roundtrip ' + exc_sig(e), x=x)
     reach()
     for _ in range(depth):
         if type(back) is not dict or list(back) != ['k']:
-            return fail(P, 'STRUCTURE', x=x)
+            return fail(P, 'STRUCTURE', x=x, deep=deep)
         back = back['k']
     if type(back) is not str or back != x:
-        return fail(P, 'VALUE folded text read back differently', x=x)
+        return fail(P, 'VALUE folded text read back differently', x=x, deep=deep)
     return 'ok'
 
 
